@@ -37,6 +37,9 @@ CHECKS = {
  "C16": ("exploration", "runtime monitor: column list learned by running the configured sub-encoders against a recorder, known-prefix matching (no splitting), context object parsed by the independent JSON parser and compared with the JSON encoder's output and the expected-value tree",
          "All 128 presence patterns (six metadata keys x context) x N seeded cases (built-in, nil, no-op sub-encoders; separators incl. multi-byte and '{'; line endings; With-chains and field trees of C01/C02, failing fields included) through EncodeEntry and an IO core: the line must be exactly the present columns in the fixed order joined by the separator, then separator + one valid JSON object equal to the JSON encoder's fields for the same chain (and to the logged values for decodable configs), then the stack on the following lines, then the line ending. A run that does not hit all 128 patterns exits 3.",
          "Separators belonging to empty-text columns, the separator before a context when no column exists, and a context for fields that emit nothing are recorded don't-care zones.", "3/C16"),
+ "C18": ("exploration", "runtime monitor: reference model of the slog.Handler contract (groups, inline groups, empty attrs/groups, LogValuers, pending WithGroup names) compared with the decoded JSON entry per handler of a derivation tree; threshold model for Enabled / handled-iff-enabled",
+         "N seeded handler derivation trees (WithGroup incl. empty names, WithAttrs) and records with attribute trees mixing typed kinds, named/inline/empty groups, empty attrs and LogValuers, at slog levels -20..20, driven through Handle directly and through slog.Logger; every emitted entry must decode to the contract's tree for that handler's own path (order, nesting, typed values), Enabled and delivery must follow the core's threshold under the four-threshold level map, and handlers are re-used in random order to expose aliasing between parent and siblings.",
+         "Groups that have attributes all of which are ignorable ('effectively empty') are a recorded don't-care zone: such cases are generated and counted but their tree is not judged. slog.NewJSONHandler is deliberately not the oracle (it emits invalid JSON in that zone on go1.23).", "3/C18"),
 }
 NOT_YET = {}
 props = [json.loads(l) for l in open(os.path.join(V, "properties.jsonl"))]
